@@ -95,11 +95,12 @@ def signature(kname, builtin):
 
 
 # ---------------------------------------------------------------- run + read back
-def run_generate(text, dm):
-    """returns ("ok", alg_text, psy_text) or ("error", ExceptionClassName, message)"""
+def run_generate(text, dm, testing=False):
+    """returns ("ok", alg_text, psy_text) or ("error", ExceptionClassName, message).
+    testing=True selects the PSyIR-based algorithm rewriting (generator.LFRIC_TESTING, not the default path)."""
     st = setup()
     from psyclone import generator
-    generator.LFRIC_TESTING = False
+    generator.LFRIC_TESTING = bool(testing)
     fn = os.path.join(st["kdir"], "alg_c24.f90")
     with open(fn, "w") as f:
         f.write(text)
@@ -109,6 +110,7 @@ def run_generate(text, dm):
     except Exception as e:      # noqa: every refusal / crash is classified by the caller
         return "error", type(e).__name__, str(e)[:300]
     finally:
+        generator.LFRIC_TESTING = False
         os.unlink(fn)
 
 
